@@ -497,6 +497,8 @@ def run_case(r, sc, stats, local_ips):
         classes.append("databytes_set")
     if sc.get("sysfault"):
         classes.append("queue_pipe_write_fails")
+    if sc["qq"].get("trig"):
+        classes.append("trigger_write_fails_after_commit")
     stats.slack += 1 if info.get("slack") else 0
     ntxn = sum(1 for c in sc["cmds"] if c["t"] == "data") if daemon == "smtpd" else len(sc["msgs"])
     happy = (info.get("acks", 0) == ntxn and sc.get("cut") is None and not info.get("rcpt_no") and not info.get("rcptD")
@@ -565,7 +567,7 @@ def g_qq(t):
     if k < 2:
         return {"mode": "qq", "exit": 0}
     if k < 4:
-        return {"mode": "real"}
+        return {"mode": "real", "trig": t.pick([32, 11, 4])} if t.flag(1, 4) else {"mode": "real"}
     if k == 4:
         return {"mode": "qq", "exit": t.n(256)}
     if k == 5:
@@ -833,6 +835,12 @@ def systematic(tier):
         for en in (12, 28):
             for q in ({"mode": "qq", "exit": 0}, {"mode": "real"}):
                 out.append(smtp(cmds=base_smtp(ntx=2, body=big), sysfault={"cls": "pwrite", "k": k, "errno": en}, qq=q))
+    # (a4) the real queue program's wake-up write to lock/trigger fails after the commit point (reader gone: EPIPE + SIGPIPE; FIFO full: EAGAIN)
+    for en in (32, 11, 4):
+        q = {"mode": "real", "trig": en}
+        out.append(smtp(cmds=base_smtp(ntx=2), qq=q))
+        out.append(dict(base_qm("qmtpd", nm=2), qq=q))
+        out.append(dict(base_qm("qmqpd"), qq=q))
     # (b) databytes grid: -1/0/+1 x via x encodings
     bodies = [{"recv": 0, "deliv": 0, "case": 0, "other": 0, "sep": True, "brecv": 0, "pat": J(p), "len": n, "nl": nl}
               for p in (b"x", b"a\rb\n", b"..\n", b"\r\n") for n in (0, 1, 40, 1030) for nl in (True, False)]
